@@ -33,7 +33,7 @@ func docYAML(d Doc) string { return string(d.YAML()) }
 func genC19(t *rapid.T) *C19Case {
 	w := GenWorld(t, GenCfg{Admin: true, NoNamedRisk: true, MaxNP: 6, MaxANP: 3})
 	// no BANP in the base world for BANP conflicts to be unambiguous
-	c := &C19Case{Kind: rapid.SampledFrom([]string{"dupprio", "dupprio", "range", "dupanpname", "dupnp", "twobanp", "banpname", "ownerlabels", "ownermissing"}).Draw(t, "conflict")}
+	c := &C19Case{Kind: rapid.SampledFrom([]string{"dupprio", "dupprio", "range", "dupanpname", "dupnp", "twobanp", "banpname", "ownerlabels", "ownermissing", "ownerempty", "ownerempty2"}).Draw(t, "conflict")}
 	if c.Kind == "twobanp" || c.Kind == "banpname" {
 		w.BANP = nil
 	}
@@ -106,13 +106,23 @@ func genC19(t *rapid.T) *C19Case {
 		inject = []string{y}
 		c.AnyOf = []string{"baseline", "banp"}
 		c.Names = []string{"default"}
-	case "ownerlabels", "ownermissing":
+	case "ownerlabels", "ownermissing", "ownerempty", "ownerempty2":
 		a := Workload{Ns: ns, Name: "own", Kind: "Owned:ReplicaSet", Replicas: 1, Labels: map[string]string{"app": "x1", "tier": "db"}}
 		b := a
-		if c.Kind == "ownerlabels" {
+		switch c.Kind {
+		case "ownerlabels":
 			b.Labels = map[string]string{"app": "x2", "tier": "db"}
-		} else {
+		case "ownermissing":
 			b.Labels = map[string]string{"tier": "db"}
+		case "ownerempty": // a label with an empty value on one pod, absent on the other
+			a.Labels = map[string]string{"app": "x1", "tier": "db", "canary": ""}
+			b.Labels = map[string]string{"app": "x1", "tier": "db"}
+		default: // different empty-valued keys
+			a.Labels = map[string]string{"app": "x1", "canary": ""}
+			b.Labels = map[string]string{"app": "x1", "stable": ""}
+		}
+		if rapid.Bool().Draw(t, "ownerswap") {
+			a.Labels, b.Labels = b.Labels, a.Labels
 		}
 		da := workloadDocs(&World{}, &a)[0]
 		db := workloadDocs(&World{}, &b)[0]
